@@ -35,7 +35,7 @@ class Prop(BaseProp):
             "executed on the original and on the transformed input and the two results must be related by the "
             "transformed time axis (exactly) and equal / mirrored / negated values (1e-9). The reflection relation "
             "pits the start-edge code path against the end-edge code path. distinct = interleaving words x transform")
-    budget = {"quick": 1000, "thorough": 30000}
+    budget = {"quick": 1000, "thorough": 180000}
     must_see = ["tf_shift", "tf_scale", "tf_reflect", "reflect:spike_on_t_start_only", "reflect:spike_on_t_end_only",
                 "reflect:one_spike_train_on_edge", "reflect:empty_train", "list_case", "mrts_auto"]
     arm_files = [("pyspike/cython/python_backend.py", ["isi_distance_python", "spike_distance_python"]),
